@@ -5,7 +5,8 @@
 (a'') RegisterAllocator::{alloc, free, reserve_range, save, restore} never panic from ANY allocator state (props/c10.py kernel (a));
 (a') compile_enum_declaration never panics for any numeric literal initialiser (props/c04.py kernel);
 (b) lexer position kernel - see props/lexk.py;
-(c) Lexer::checkpoint / restore round trip (what every speculative parse relies on to rewind) - props/lexk.py check_checkpoint.
+(c) Lexer::checkpoint / restore round trip (what every speculative parse relies on to rewind) - props/lexk.py check_checkpoint;
+(d) every speculative parse that declines has rewound lexer and current token completely - props/parsebk.py.
 The parser (recursion depth, speculative re-parsing cost) is outside the claim.
 """
 import json
@@ -64,6 +65,8 @@ def run(rep):
         from . import lexk
         lexk.check(rep, cross, 'C05')
         lexk.check_checkpoint(rep, cross, 'C05')
+        from . import parsebk
+        parsebk.check(rep, cross, 'C05')
     except ImportError:
         pass
     rep.cross = driver.cross_check(cross, 300, 'ALL', rep.tier, rep.seed)
